@@ -175,15 +175,18 @@ def gen_case_restart(seed, tier, index=0):
         comps.append(c)
         on = c.get('restartHookOn')
         on = ['ResourceExhausted'] if on is None else on
-        pool = list(on) * 3 + ['KnownIssue', 'UnknownIssue', 'SystemIssue', 'ResourceExhausted', 'Killed', 'Cancelled']
+        pool = list(on) * 3 + ['KnownIssue', 'UnknownIssue', 'SystemIssue', 'ResourceExhausted', 'Killed', 'Cancelled',
+                               'SubmissionFailed']
         lf = rr.choice([0.0, 0.0, 0.2, 0.7, 1.0])
         nexec = rr.choice([2, 6, 12])
         execs = []
         for _ in range(nexec):
             e = {'dur': rr.choice([0.3, 2.0, 6.0]), 'exit': rr.choice(pool) if rr.random() < 0.85 else 'Success'}
-            if e['exit'] == 'SubmissionFailed':
+            if e['exit'] == 'SubmissionFailed' and rr.random() < 0.5:
                 e['exit'] = 'Success'
                 e['launch_fail'] = 'joblaunch'
+            elif e['exit'] == 'SubmissionFailed':
+                pass  # reported by the task itself some time after it was accepted (image pull, scheduler rejection)
             elif rr.random() < lf:
                 e['launch_fail'] = rr.choice(['oserror', 'joblaunch', 'joblaunch', 'valueerror'])
             if e.get('launch_fail') and rr.random() < 0.35:
@@ -191,9 +194,10 @@ def gen_case_restart(seed, tier, index=0):
             execs.append(e)
         if rr.random() < 0.4 and on:
             # a streak: the same restartable exit many times in a row (what exhausts a restart budget), then success
-            r = rr.choice(on)
+            r = rr.choice(list(on) + ['SubmissionFailed'])
             streak = rr.choice([3, 4, 5, 7, 12])
-            execs = [({'dur': 0.3, 'exit': 'Success', 'launch_fail': 'joblaunch'} if r == 'SubmissionFailed'
+            by_task = rr.random() < 0.5  # a failed submission reported by the accepted task instead of the backend call
+            execs = [({'dur': 0.3, 'exit': 'Success', 'launch_fail': 'joblaunch'} if (r == 'SubmissionFailed' and not by_task)
                       else {'dur': rr.choice([0.3, 2.0]), 'exit': r}) for _ in range(streak)]
         plan[name] = {'default': {'dur': 1.0, 'exit': 'Success'}, 'execs': execs}
         if c.get('restartHookFile') or use_hook_file:
